@@ -76,6 +76,9 @@ func c18NameLabel(n string) string {
 }
 
 // keys: two plain ones, one that looks like an entity file, and one that is another key plus ".tmp"
+// c18ValSameLen: values of one length (a store that recognises "nothing changed" by size and time stamp is wrong for them)
+var c18ValSameLen = [][]byte{[]byte("abc"), []byte("xyz"), []byte("a\rb")}
+
 var c18Keys = []string{"k1", "x.entity", "k1.tmp"}
 
 // c18Canon: hc's file storage drops every ':' from a key (its documented way to make a file name); keys that differ
@@ -140,6 +143,9 @@ func c18Play(c *fw.Ctx, layer string, hist []c18Op, dir string) (state string, o
 	cas := c18Case{Layer: layer, Hist: hist, Dir: c18DirName}
 	if len(c18Vals) == len(c18ValShapes) {
 		cas.Vals = "shapes"
+	}
+	if len(c18Vals) == len(c18ValSameLen) {
+		cas.Vals = "samelen"
 	}
 	if c18DirName != "" {
 		dir = filepath.Join(filepath.Dir(dir), c18DirName)
@@ -447,6 +453,23 @@ func c18Run(c *fw.Ctx) {
 		c18Keys, c18Vals = []string{"k1"}, c18ValShapes
 		c18Explore(c, "storage", c18StorageOps(), 3)
 		c18Keys, c18Vals = saved, savedVals
+		// one key, three values of ONE length: every history of length 4 (5) without merging (set, get, delete, reopen),
+		// so that a value is read, overwritten with another one of the same size at once, and read again
+		c18Keys, c18Vals = []string{"k1"}, c18ValSameLen
+		{
+			var sl []c18Op
+			for _, op := range c18StorageOps() {
+				if op.Op != "keys" {
+					sl = append(sl, op)
+				}
+			}
+			c18Tree(c, "storage", sl, depth, 0, 1)
+		}
+		c18Keys, c18Vals = saved, savedVals
+		// keys that differ only in a character some file systems do not allow in names (this one does)
+		c18Keys = []string{"a<b", "ab", "a?b"}
+		c18Explore(c, "storage", c18StorageOps(), depth-1)
+		c18Keys = saved
 		// the same searches (one level shallower) in directories whose names contain characters that mean something to
 		// pattern matching, shells or format strings
 		for _, dn := range c18SpecialDirs {
@@ -489,7 +512,7 @@ func init() {
 	fw.Register(&fw.Check{
 		ID:     "C18",
 		Level:  "model_checking",
-		Rule:   "explicit-state breadth-first search over the real file storage and pairing database: alphabet Set(k,v) for 3 keys (thorough 4; one looks like an entity file, one is another key plus .tmp) × 5 values (lengths 0,1,3,6,4096), Get, Delete, KeysWithSuffix × 3 suffixes, reopen; SaveEntity (3 key lengths) / EntityWithName / DeleteEntity / Entities / reopen for 9 entity names (ASCII, empty, non-ASCII, with slash, with colon, 100 arbitrary bytes, invalid UTF-8 ending in 0xfe and in 0xee, a name ending in '.entity'). State = exact directory content (file names and bytes); every operation is executed in every discovered state by replaying the state's shortest history on a fresh directory; after every step all keys, listings and entities are compared with a Go map. Because that merging is sound only if the storage object holds nothing but the path, EVERY history of length 3 (thorough 4) over a reduced alphabet (2 keys × 4 values, get, delete, listing, reopen; 3 entity names) is additionally replayed without merging. distinct_nontrivial = distinct (layer, operation) classes executed Added: the searches repeated in storage directories named 'Lamp [Kitchen]', 'a*b', 'what?', '[a-', 'back\\slash', '{x,y}', 'per%cent', ' lead and trail '; writes cut short by the operating system (RLIMIT_FSIZE) for Set and SaveEntity — success only with the complete value, failure leaves the previous one; a storage BFS over two keys that differ only in letter case; entity names \"A\" (next to \"a\") and a 124-byte name. Plus, in a subprocess built with a scheduling point before EVERY statement of hc's packages (textual insertion through go build -overlay): every interleaving with at most 1 (thorough 2) preemptions of pairs of operations on disjoint objects — and, where the property is about served requests, of pairs of handlers on two verified connections of one accessory touching different characteristics — each side must observe exactly what it observes when the two run one after the other (module-level mutable state is what makes them differ). Also one key with 8 value shapes (line breaks, blanks, NUL, 0xff at either end, nothing but line breaks) to depth 3, and public keys whose base64 text consists of hexadecimal digits only; entities with a private key that later saves replace by none; two names (one empty) to depth 4 (thorough 5) with reopen; what Get returned stays what it was while other keys are read; a key with colons next to its colon-free spelling (the storage drops colons: one key).",
+		Rule:   "explicit-state breadth-first search over the real file storage and pairing database: alphabet Set(k,v) for 3 keys (thorough 4; one looks like an entity file, one is another key plus .tmp) × 5 values (lengths 0,1,3,6,4096), Get, Delete, KeysWithSuffix × 3 suffixes, reopen; SaveEntity (3 key lengths) / EntityWithName / DeleteEntity / Entities / reopen for 9 entity names (ASCII, empty, non-ASCII, with slash, with colon, 100 arbitrary bytes, invalid UTF-8 ending in 0xfe and in 0xee, a name ending in '.entity'). State = exact directory content (file names and bytes); every operation is executed in every discovered state by replaying the state's shortest history on a fresh directory; after every step all keys, listings and entities are compared with a Go map. Because that merging is sound only if the storage object holds nothing but the path, EVERY history of length 3 (thorough 4) over a reduced alphabet (2 keys × 4 values, get, delete, listing, reopen; 3 entity names) is additionally replayed without merging. distinct_nontrivial = distinct (layer, operation) classes executed Added: the searches repeated in storage directories named 'Lamp [Kitchen]', 'a*b', 'what?', '[a-', 'back\\slash', '{x,y}', 'per%cent', ' lead and trail '; writes cut short by the operating system (RLIMIT_FSIZE) for Set and SaveEntity — success only with the complete value, failure leaves the previous one; a storage BFS over two keys that differ only in letter case; entity names \"A\" (next to \"a\") and a 124-byte name. Plus, in a subprocess built with a scheduling point before EVERY statement of hc's packages (textual insertion through go build -overlay): every interleaving with at most 1 (thorough 2) preemptions of pairs of operations on disjoint objects — and, where the property is about served requests, of pairs of handlers on two verified connections of one accessory touching different characteristics — each side must observe exactly what it observes when the two run one after the other (module-level mutable state is what makes them differ). Also one key with 8 value shapes (line breaks, blanks, NUL, 0xff at either end, nothing but line breaks) to depth 3, and public keys whose base64 text consists of hexadecimal digits only; entities with a private key that later saves replace by none; two names (one empty) to depth 4 (thorough 5) with reopen; what Get returned stays what it was while other keys are read; a key with colons next to its colon-free spelling (the storage drops colons: one key); one key with three values of one length, every history of length 4 (thorough 6) without merging; keys that differ only in '<' or '?'.",
 		Shards: func(string) int { return 16 },
 		Run:    c18Run,
 		Replay: func(c *fw.Ctx, raw json.RawMessage) {
@@ -503,6 +526,9 @@ func init() {
 			savedVals := c18Vals
 			if cas.Vals == "shapes" {
 				c18Vals = c18ValShapes
+			}
+			if cas.Vals == "samelen" {
+				c18Vals = c18ValSameLen
 			}
 			c18Play(c, cas.Layer, cas.Hist, filepath.Join(c.Scratch, "replay-store"))
 			c18Vals = savedVals
